@@ -348,11 +348,14 @@ class Analysis:
                 new.fields[t.attr] = self.ev(a.value, st, fr)
             elif isinstance(t, ast.Tuple):
                 new = st.copy()
-                for el in t.elts:
+                for i, el in enumerate(t.elts):
+                    # `a, b = pair`: a is pair[0], b is pair[1] (so that hooks that know `self._buffer[0][1]` see through the unpacking)
+                    v = self.ev(ast.copy_location(ast.Subscript(value=a.value, slice=ast.Constant(i), ctx=ast.Load()), a.value), st, fr) \
+                        if not isinstance(a.value, (ast.Tuple, ast.List)) and not any(isinstance(x, ast.Starred) for x in t.elts) else TOP
                     if isinstance(el, ast.Name):
-                        new.locals[(fr.id, el.id)] = TOP
+                        new.locals[(fr.id, el.id)] = v
                     elif is_self_attr(el) and el.attr in self.tracked:
-                        new.fields[el.attr] = TOP
+                        new.fields[el.attr] = v
         elif n.kind == 'stmt' and isinstance(a, ast.Assign):
             new = st.copy()
             v = self.ev(a.value, st, fr)
